@@ -2,7 +2,7 @@ HOOK_COMMITS = ['c1c434b', '878b954']
 NOTES = ('All checks are driven by bin/check <ID> --tier quick|thorough; exit 0/1/2 as described in DESIGN.md 2.4. '
          'known_findings.json lists recorded defects and fixed ones.')
 _pending = 'check not built yet in this revision (see DESIGN.md); will be claimed when its specification and harness exist'
-for _p in ['C03','C05','C06','C11','C13']:
+for _p in ['C05','C11','C13']:
     NA[_p] = _pending
 NA['C01'] = ('power balance needs numerical integration of the reported pattern over the sphere and a 1.5 % physical '
              'tolerance of the true kernel: numeric accuracy with no discrete content, nothing a TLA+ specification can decide (DESIGN.md section 5)')
@@ -168,3 +168,27 @@ check('C10', 'model_checking',
       'of mathematics (sin(x)/x factor below 0.13 % for segments up to lambda/18). The sum is evaluated in floating point by the harness, TLC '
       'supplies the discrete pulse table.',
       'TLC pulse tables + independent radiation sum vs the real far-field code with injected currents', 'DESIGN.md 4 C10')
+
+check('C06', 'exploration',
+      'Nine conductor structures (bent, star, T, closed triangle, chain, inverted L, sloping grounded, two grounded ends, elevated + grounded): '
+      'every permutation of the wire order x every choice of directions, every explicit tag permutation and every split of every wire at a '
+      'segment boundary in three direction combinations (436 descriptions). spec/TopologyOn.tla (TLC) gives the pulse table and J-line '
+      'coefficient vectors of each description and checks every Topology invariant (CountFormula, KCL, JunctionEndIsSum, ...) on it; the harness '
+      'derives from them the map pulse currents -> physical joint currents. Every description is solved with the feed on the same physical '
+      'joint; feed impedance, all physical joint currents, near field (E, H at four points) and the far-field pattern must agree with the '
+      'reference description within the tolerance of the property (5e-4, condition-number rule). Mirror-symmetric V dipole: symmetric currents '
+      'for all orders / directions; tapered V dipole (unequal segments): all orders / directions agree.',
+      'Exploration level: the discrete part (which descriptions denote one structure, joint-current maps, invariants) by TLC, the numeric part is '
+      'a comparison of implementation outputs. Structures are a fixed list inside the stated domain; measured deviations are 1e-10 .. 5e-7.',
+      'TLC (TopologyOn.tla) joint-current maps per description + solved comparison across descriptions', 'DESIGN.md 4 C06, 3.2')
+check('C03', 'exploration',
+      'Seven grounded structures (monopole, inverted L, sloping wire grounded at end 1 or 2, two grounded ends, elevated + grounded, sloping '
+      'branch, horizontal wire over ground): every wire order and direction choice of the ground model is paired with its free-space mirror '
+      'model (every wire duplicated at -z, grounded wires continued into their image; straight-2n variant for vertical wires). '
+      'spec/TopologyOn.tla (TLC) checks all Topology invariants on both models and the relation N_free = 2 N_ground - #ground pulses on the two '
+      'records. The pulse correspondence with signs follows from pulse positions and directions. Both models are solved for every single feed '
+      'pulse (ground pulses with 2 V on the plane pulse of the mirror model) and two seeded two-source sets: currents through the correspondence, '
+      'feed impedances (half rule for grounded feeds) and gain (+3.0103 dB on a 6 x 8 direction grid) must agree (5e-4 / 0.01 dB, '
+      'condition-number rule).',
+      'Exploration level: structure and counts by TLC, numeric agreement is a comparison of implementation outputs; measured deviations below 3e-9.',
+      'TLC (TopologyOn.tla) on ground and mirror model + solved comparison through the pulse bijection', 'DESIGN.md 4 C03')
